@@ -52,7 +52,17 @@ func VH_C17_Reject() {
 	b := vbip(vparam("L", 1))
 	text := []byte(EncodeBIP276(b))
 	n := len(text)
-	switch vnondetLen("corruption", 0, 3) {
+	switch vnondetLen("corruption", 0, 4) {
+	case 4: // one hex digit inserted into the data field (anywhere from its start to just before the checksum): an odd number of data digits
+		k := len(b.Prefix) + 5 + vnondetLen("inspos", 0, n-8-len(b.Prefix)-5)
+		c := vnondetU8("inschar")
+		vassume((c >= '0' && c <= '9') || (c >= 'a' && c <= 'f') || (c >= 'A' && c <= 'F'))
+		t := append(append(append([]byte{}, text[:k]...), c), text[k:]...)
+		_, err := DecodeBIP276(string(t))
+		vassert(err != nil, "C17: odd number of data digits rejected")
+		ok, _ := ValidateAddress(string(t))
+		vassert(!ok || b.Prefix != PrefixScript, "C17: ValidateAddress rejects an odd number of data digits")
+		vreach("c17-odd")
 	case 3: // one or two non-hex characters appended after the checksum
 		for i, m := 0, vnondetLen("tail-len", 1, 2); i < m; i++ {
 			c := vnondetU8("tailchar")
